@@ -122,6 +122,17 @@ def run(ctx: Ctx) -> None:
             raise AnalysisError(f"anchor function missing: {site_fn} (the permitted extension site)")
         for g in cands:
             _extension_model(ctx, g, src.split(".")[-1])
+    ctx.rule("C07.R4", "representation code keeps no memo whose key does not determine the remembered value (a mapping must not be answered from another mapping's arguments)")
+    from .common import memo_rule
+    scope4 = [f for f in prog.functions.values() if f.module.name.startswith("geneticengine.representations") and f.cls is not None]
+    n4 = memo_rule(ctx, "C07.R4", scope4)
+    ctx.floor("C07.R4", len(scope4), 60, "methods of the representation modules scanned for memo tables")
+    ctx.ob("C07.R4", None, None, "methods of the representation modules scanned for memo tables", True, f"{len(scope4)} methods, {n4} memo / cursor sites",
+           module="geneticengine/representations")
+    ctx.rule("C07.R5", "the representation modules keep no state outside the objects of one mapping: no module-level / class-level containers written, no memoising decorators, no shared defaults")
+    from .c08 import process_state_rule
+    n5 = process_state_rule(ctx, "C07.R5", ("geneticengine.representations",))
+    ctx.ob("C07.R5", None, None, "representation modules scanned for process-level and class-level state", True, f"{n5} candidate sites", module="geneticengine/representations")
     ctx.rule("C07.R1", "every random draw reachable from a mapping comes from a genotype-backed source (or the permitted extension)")
     ctx.rule("C07.R2", "a mapping writes only to objects it created itself (no state that outlives the mapping)")
     entries = [f for f in prog.implementations(REPRESENTATION, "genotype_to_phenotype")
